@@ -221,6 +221,19 @@ type hsConfig struct {
 	// KK: does each side store the peer's true key?
 	IKnowsR bool `json:"i_knows_r,omitempty"`
 	RKnowsI bool `json:"r_knows_i,omitempty"`
+	// StaleAuth: the initiator's ConnData already holds an auth payload from
+	// an earlier handshake (the real client keeps one ConnData across the
+	// pairing handshake and every reconnect).
+	StaleAuth bool `json:"stale_auth,omitempty"`
+}
+
+// staleAuth is what the initiator holds before the handshake when
+// cfg.StaleAuth is set.
+func staleAuth(cfg hsConfig) []byte {
+	if !cfg.StaleAuth {
+		return nil
+	}
+	return entropy(cfg.Seed, "stale-auth", 24)
 }
 
 type party struct {
@@ -287,7 +300,7 @@ func newHSPair(cfg hsConfig) *hsPair {
 			func(k *btcec.PublicKey) error { pt.gotRemote = append(pt.gotRemote, k); return nil },
 			func(d []byte) error { pt.gotAuth = append(pt.gotAuth, d); return nil })
 	}
-	mk(p.I, iRemote, p.passI, nil)
+	mk(p.I, iRemote, p.passI, staleAuth(cfg))
 	mk(p.R, rRemote, p.passR, p.auth)
 	p.I.m, p.I.ctorErr = mailbox.NewBrontideMachine(&mailbox.BrontideMachineConfig{
 		ConnData: p.I.cd, Initiator: true, HandshakePattern: pattern(cfg.Pattern),
@@ -401,6 +414,7 @@ func genCleanCfg(t *rapid.T) hsConfig {
 	}
 	c.AuthLen = rapid.SampledFrom([]int{0, 1, 32, 200}).Draw(t, "auth_len")
 	c.PassMode = "same"
+	c.StaleAuth = rapid.IntRange(0, 3).Draw(t, "stale_auth") == 0
 	return c
 }
 
